@@ -138,6 +138,7 @@ func runC09(c *Ctx, r *Report) {
 	c09Spaceship(c, r, rs)
 	c09SortFlags(c, r)
 	c09Spill(c, r)
+	c09NoSubtraction(c, r)
 }
 
 // ---- R09.3 -------------------------------------------------------------------
@@ -390,4 +391,82 @@ func c09SortFlags(c *Ctx, r *Report) {
 func c09Spill(c *Ctx, r *Report) {
 	r.Rule("R09.6", "records lacking a sort key are set aside, not compared: in sort, top and sort-within-records the 'ok' result of the key selector is branched on before the selected values are used")
 	checkSelectorResults(c, r, "R09.6", []string{"sort.go", "top.go"}, 2)
+}
+
+// ---- R09.7 ------------------------------------------------------------------
+// Order kernels compare, they do not subtract.
+func c09NoSubtraction(c *Ctx, r *Report) {
+	r.Rule("R09.7", "order kernels compare, never subtract: in the comparison kernels and comparators of packages mlrval and bifs (functions returning int whose name ends in _cmp / Comparator or starts with Compare / collate) no integer subtraction of the two compared values is computed — the sign of a-b is not the order of a and b once the difference wraps (|a-b| ≥ 2^63), so the order would not be antisymmetric")
+	n := 0
+	nameOK := func(s string) bool {
+		l := strings.ToLower(s)
+		return strings.HasSuffix(l, "_cmp") || strings.HasSuffix(l, "comparator") || strings.HasPrefix(l, "compare") || strings.HasPrefix(l, "collate") || strings.Contains(l, "cmp_")
+	}
+	fromParam := func(v ssa.Value, fn *ssa.Function) int {
+		for d := 0; d < 6; d++ {
+			switch x := v.(type) {
+			case *ssa.Parameter:
+				for i, p := range fn.Params {
+					if p == x {
+						return i
+					}
+				}
+				return -1
+			case *ssa.TypeAssert:
+				v = x.X
+			case *ssa.UnOp:
+				v = x.X
+			case *ssa.FieldAddr:
+				v = x.X
+			case *ssa.Extract:
+				v = x.Tuple
+			case *ssa.Call:
+				if len(x.Call.Args) == 0 {
+					return -1
+				}
+				v = x.Call.Args[0]
+			case *ssa.Convert:
+				v = x.X
+			default:
+				return -1
+			}
+		}
+		return -1
+	}
+	for _, fn := range c.ModuleFunctions() {
+		if fn.Pkg == nil {
+			continue
+		}
+		pp := fn.Pkg.Pkg.Path()
+		if !(strings.HasSuffix(pp, "/pkg/mlrval") || strings.HasSuffix(pp, "/pkg/bifs")) || !nameOK(fn.Name()) {
+			continue
+		}
+		res := fn.Signature.Results()
+		if res.Len() != 1 {
+			continue
+		}
+		if b, ok := res.At(0).Type().Underlying().(*types.Basic); !ok || b.Info()&types.IsInteger == 0 {
+			continue
+		}
+		n++
+		bad := ""
+		for _, b := range fn.Blocks {
+			for _, in := range b.Instrs {
+				bo, ok := in.(*ssa.BinOp)
+				if !ok || bo.Op != token.SUB {
+					continue
+				}
+				if bt, ok := bo.Type().Underlying().(*types.Basic); !ok || bt.Info()&types.IsInteger == 0 {
+					continue
+				}
+				pi, pj := fromParam(bo.X, fn), fromParam(bo.Y, fn)
+				if pi >= 0 && pj >= 0 && pi != pj {
+					bad = c.Rel(bo.Pos())
+				}
+			}
+		}
+		r.Check(bad == "", "R09.7", SSAName(fn), c.Rel(fn.Pos()), "compares with < and >",
+			fmt.Sprintf("%s computes the integer difference of the two values it orders (%s): for operands of opposite sign and large magnitude the difference wraps and the larger value sorts first", SSAName(fn), bad))
+	}
+	r.Floor("R09.7", "order kernels and comparators", n, 10)
 }
